@@ -6,6 +6,7 @@ pub mod driver;
 pub mod e2;
 pub mod exec;
 pub mod kinds;
+pub mod mixseq;
 pub mod seq;
 pub mod serdechk;
 pub mod types;
